@@ -9,7 +9,7 @@ COQ_CASE_TYPE = "case"
 COQ_AGREE = "agree"
 COQ_PROP_OK = "prop_ok"
 RULE = ("seeded generator: kind in {time scheduler, step scheduler, periodic save condition}; interval in ticks of 2^-6 s "
-        "(incl. 0); 1-3 callbacks each reading the clock 0-2 times; operation lists of update/register/remove, some updates with a callback that raises; a scripted "
+        "(incl. 0); 0-3 callbacks each reading the clock 0-2 times; operation lists of update/register/remove (down to no callback at all, and registering again later), some updates with a callback that raises; a scripted "
         "clock that advances on every single read by amounts clustered around the threshold.  Non-trivial = the trace "
         "contains at least one firing and at least one non-firing update; distinct = different canonical JSON input.")
 TRUSTED = [
@@ -47,7 +47,7 @@ def gen_one(rng):
     kind = rng.choice(["time", "time", "time", "step", "cond", "cond"])
     ivl = rng.choice([0, 1, 2, 5, 10, 50, 64, 100])
     n = rng.choice([1, 1, 2, 3, 4, 7])
-    ncb = rng.randint(1, 3)
+    ncb = rng.choice([0, 1, 1, 2, 3])      # also none at first: callbacks may be registered later
     cbs = [[i + 1, rng.choice([0, 0, 0, 1, 2])] for i in range(ncb)]
     nops = rng.randint(1, 14)
     ops, live, nxt = [], [c[0] for c in cbs], ncb + 1
@@ -59,7 +59,7 @@ def gen_one(rng):
             ops.append(["u"])
         elif r < 0.88:
             ops.append(["reg", nxt, rng.choice([0, 0, 1])]); live.append(nxt); nxt += 1
-        elif len(live) > 1:
+        elif live:                             # down to none: the schedule goes on all the same
             i = rng.choice(live); live.remove(i); ops.append(["rm", i])
         else:
             ops.append(["u"])
